@@ -286,6 +286,11 @@ pub fn run(ctx: &Ctx, profile: Profile) -> i32 {
         Profile::C01 => ctx.runs(4, 60),
         _ => 0,
     };
+    // hoarding receivers: a flood of ~2^16 repair packets for one small block in one batch
+    let n_mega: u64 = match profile {
+        Profile::C01 | Profile::C08 => ctx.runs(8, 300),
+        _ => 0,
+    };
     let (acc, fail) = par_fold(
         n,
         ctx.workers,
@@ -303,6 +308,9 @@ pub fn run(ctx: &Ctx, profile: Profile) -> i32 {
             } else if run < n_giant + 2 * n_xxl {
                 acc.probes.inc("shape_large_block");
                 simulate_band(run_seed(seed, stream + 2000, run), profile, oracles, false, 700, 1700)
+            } else if run < n_giant + 2 * n_xxl + n_mega {
+                acc.probes.inc("shape_hoarded_flood");
+                crate::sim::simulate_mega(run_seed(seed, stream + 4000, run), profile, oracles, false)
             } else {
                 simulate(run_seed(seed, stream, run), profile, oracles, false, max_k)
             };
@@ -356,7 +364,7 @@ pub fn run(ctx: &Ctx, profile: Profile) -> i32 {
                 acc.shapes.insert(d.finish64());
             }
             // samples: the first large single-block run (if any) and the first two ordinary runs
-            let first_ordinary = n_giant + 2 * n_xxl;
+            let first_ordinary = n_giant + 2 * n_xxl + n_mega;
             if (n_giant > 0 && run == 0) || (run >= first_ordinary && run < first_ordinary + 2) {
                 acc.samples.push(sample_of(run, &out.scenario, out.ticks));
             }
@@ -413,6 +421,9 @@ pub fn run(ctx: &Ctx, profile: Profile) -> i32 {
     }
     if n_giant > 0 {
         probes.add("shape_giant_block", acc.probes.get("shape_giant_block"));
+    }
+    if n_mega > 0 {
+        probes.add("shape_hoarded_flood", acc.probes.get("shape_hoarded_flood"));
     }
     if violations.is_empty() {
         for z in probes.zeros() {
@@ -507,7 +518,11 @@ pub fn prof(profile: Profile, n: u64, seed: u64, max_k: u32) {
     let mut rows = vec![];
     for run in 0..n {
         let t = std::time::Instant::now();
-        let out = simulate(run_seed(seed, stream_of(profile), run), profile, oracles, false, max_k);
+        let out = if max_k == 0 {
+            crate::sim::simulate_mega(run_seed(seed, stream_of(profile) + 4000, run), profile, oracles, false)
+        } else {
+            simulate(run_seed(seed, stream_of(profile), run), profile, oracles, false, max_k)
+        };
         let dt = t.elapsed().as_secs_f64();
         let o = out.scenario.setup.oti;
         rows.push((dt, run, o, out.scenario.setup.receivers.len(), out.scenario.events.len(), out.scenario.setup.replicas.clone()));
